@@ -272,7 +272,7 @@ class Acc:
         if coq and rv is not None:
             self.coq.add(name, args, real)
 
-    def real_number(self, frag, name, args, real, rel=1e-12, flags=()):
+    def real_number(self, frag, name, args, real, rel=1e-12, flags=(), atol=0.0):
         """R definition: binary64 evaluation of the same tree bit-for-bit, 60-digit evaluation within rel"""
         o = self.m.by_name[name]
         self.count(frag)
@@ -285,7 +285,7 @@ class Acc:
         if not same_float(fv, real):
             self.differ(frag, f"{name}{args}: real {float(real)!r} != tree in binary64 {float(fv)!r}")
         d = float(dv)
-        if not (abs(d - float(real)) <= rel * max(abs(d), 1e-300)):
+        if not (abs(d - float(real)) <= rel * max(abs(d), 1e-300) + atol):
             if "no-dec" not in flags:
                 self.differ(frag, f"{name}{args}: real {float(real)!r} vs 60-digit value of the tree {d!r}")
         return dv
@@ -426,11 +426,18 @@ def mon_impr(fb, fn, sb, sn, q, z):
     return None
 
 
+MAX_PER_KEY = 2
+
+
 def report(ctx, v, replay):
-    if v is not None:
+    """one monitor verdict; at most MAX_PER_KEY concrete inputs per key become VIOLATION lines, the rest are counted"""
+    if v is None:
+        return 0
+    seen = ctx.coverage.setdefault("grid_monitor_failures", {})
+    seen[v[0]] = seen.get(v[0], 0) + 1
+    if seen[v[0]] <= MAX_PER_KEY:
         ctx.violate(v[0], v[1], replay)
-        return 1
-    return 0
+    return 1
 
 
 # --------------------------------------------------------------------------- component level
@@ -452,8 +459,7 @@ def comp_force_to_grid(ctx, acc, n):
         for x in (INF, -INF):           # documented: an infinite value is a fixed point
             a = float(gf.force_to_grid(np.array([[x]]), m)[0, 0])
             if a != x:
-                ctx.violate("grid:force_to_grid:infinite-moved", f"force_to_grid({x!r}, {m!r}) = {a!r}", dict(kind="force_to_grid", x=x, mesh=m))
-                nv += 1
+                nv += report(ctx, ("grid:force_to_grid:infinite-moved", f"force_to_grid({x!r}, {m!r}) = {a!r}"), dict(kind="force_to_grid", x=x, mesh=m))
     # non-power-of-two meshes: the exact reading is no longer exact in binary64; only the monitors' half-mesh clause with slack is checked
     return nv
 
@@ -472,9 +478,7 @@ def comp_search_box(ctx, acc, n):
         with np.errstate(all="ignore"):
             lbs, ubs = bb.BADS._update_search_bounds_(stub)
         if not (np.array_equal(stub.optim_state["lb"], lb) and np.array_equal(stub.optim_state["ub"], ub)):
-            ctx.violate("grid:search-box:hard-bounds-modified", "_update_search_bounds_ changed optim_state['lb'/'ub'] in place",
-                        dict(kind="search_box", lb=lb.tolist(), ub=ub.tolist(), mesh=m))
-            nv += 1
+            nv += report(ctx, ("grid:search-box:hard-bounds-modified", "_update_search_bounds_ changed optim_state['lb'/'ub'] in place"), dict(kind="search_box", lb=lb.tolist(), ub=ub.tolist(), mesh=m))
         for i in range(D):
             l, u, a, b = float(lb[0, i]), float(ub[0, i]), float(lbs[0, i]), float(ubs[0, i])
             nv += report(ctx, mon_search_box(l, u, m, a, b), dict(kind="search_box", lb=l, ub=u, mesh=m))
@@ -486,12 +490,66 @@ def comp_search_box(ctx, acc, n):
     return nv
 
 
-def comp_init_region(ctx, acc, n):
-    """the located statements of _init_optim_state_ run on a stub (arbitrary boxes, including ones narrower than a step)"""
+# ---- loosely located statements: used ONLY when the translator refuses the source, to look for a concrete failing input -------------
+
+WATCH_INIT = {"loc:lb_search", "loc:ub_search", "loc:u0", "os:lb_search", "os:ub_search", "os:u", "self:u", "os:tol_mesh", "os:mesh_size",
+              "os:search_mesh_size", "os:search_size_integer", "self:mesh_size_integer", "self:mesh_size", "self:search_mesh_size", "os:lb", "os:ub"}
+WATCH_LOOP = {"self:mesh_size", "os:mesh_size", "os:search_size_integer", "os:search_mesh_size", "self:search_mesh_size", "os:lb_search",
+              "os:ub_search", "self:sufficient_improvement", "os:search_sufficient_improvement"}
+
+
+def loose_regions():
+    """(init statements, init re-check, loop statements, loop stop test) found by the places they write, with no grammar check"""
+    mod = T.parse_quiet((core.REPO / T.REL_BADS).read_text())
+    cls = [c for c in mod.body if isinstance(c, ast.ClassDef) and c.name == "BADS"][0]
+    fn = {f.name: f for f in cls.body if isinstance(f, ast.FunctionDef)}
+    ib = fn["_init_optim_state_"].body
+    init = [st for st in ib if isinstance(st, (ast.Assign, ast.AugAssign)) and set(T.written_places(st)) & WATCH_INIT
+            and not any(T.same(st, o) for o in ("self.lower_bounds = self.var_transf.lb.copy()", "self.upper_bounds = self.var_transf.ub.copy()"))]
+    rej = [st for st in ib if isinstance(st, ast.If) and any(isinstance(x, ast.Raise) for x in st.body)
+           and "loc:u0" in [T.place(x) for x in ast.walk(st.test)]
+           and {T.place(x) for x in ast.walk(st.test) if isinstance(x, (ast.Name, ast.Attribute)) and T.dotted(x) not in ("np", "np.any", "self")}
+           <= {"loc:u0", "self:upper_bounds", "self:lower_bounds"}]
+    loops = [st for st in fn["optimize"].body if isinstance(st, ast.While)]
+    wb = loops[0].body if loops else []
+    loop, stop = [], None
+    for st in wb:
+        w = set(T.written_places(st))
+        if w & WATCH_LOOP and isinstance(st, (ast.Assign, ast.AugAssign, ast.If)) and "os:search_count" not in w and not any(isinstance(x, ast.Call) and T.dotted(x.func) in ("self._search_step_", "self._poll_step_") for x in ast.walk(st)):
+            loop.append(st)
+        if isinstance(st, ast.If) and "os:tol_mesh" in [T.place(x) for x in ast.walk(st.test)]:
+            stop = st
+    return init, (rej[0] if rej else None), loop, stop
+
+
+class Options(dict):
+    """self.options of the stub: the values under test on top of the real defaults"""
+    base = None
+
+    def __init__(self, **kw):
+        if Options.base is None:
+            try:
+                logging.disable(logging.CRITICAL)
+                b = build(dict(x0=[0.0], lb=[-2.0], ub=[2.0], plb=[-1.0], pub=[1.0], options=dict(display="off")))
+                Options.base = {k: b.options[k] for k in b.options}
+            except Exception:                      # noqa: BLE001
+                Options.base = {}
+            finally:
+                logging.disable(logging.NOTSET)
+        super().__init__(Options.base)
+        self.update(kw)
+
+
+def comp_init_region(ctx, acc, n, loose=None):
+    """the located statements of _init_optim_state_ run on a stub (arbitrary boxes, including ones narrower than a step).
+    acc None: monitors only, on the loosely located statements"""
     bb, gf = real_mods()
     rng = ctx.rng
-    m_ = acc.m
-    stmts = def_stmts(m_.init)
+    if acc is not None:
+        m_ = acc.m
+        stmts, rej_stmt = def_stmts(m_.init), m_.init_rej_stmt
+    else:
+        stmts, rej_stmt = loose[0], loose[1]
     nv = 0
     for _ in range(n):
         k0 = rng.choice([0, 0, 0, -1, -2, -5, 1])
@@ -507,18 +565,42 @@ def comp_init_region(ctx, acc, n):
         lb = np.array([[b[0] for b in boxes]])
         ub = np.array([[b[1] for b in boxes]])
         xu = np.array([[b[2] for b in boxes]])
-        stub = Stub(options=dict(init_mesh_size_integer=k0, search_grid_multiplier=sgm, search_grid_number=sgn,
-                                 poll_mesh_multiplier=pmm, tol_mesh=tol),
+        stub = Stub(options=Options(init_mesh_size_integer=k0, search_grid_multiplier=sgm, search_grid_number=sgn,
+                                    poll_mesh_multiplier=pmm, tol_mesh=tol),
                     lower_bounds=lb.copy(), upper_bounds=ub.copy(), x0=None, var_transf=None)
         ns = dict(np=np, self=stub, optim_state=dict(scale=1.0), force_to_grid=gf.force_to_grid, grid_units=lambda *a, **k: xu.copy())
-        with np.errstate(all="ignore"):
-            run_stmts(stmts, ns)
-        os_ = ns["optim_state"]
         raised = False
         try:
-            run_stmts([m_.init_rej_stmt], ns)
-        except ValueError:
-            raised = True
+            with np.errstate(all="ignore"):
+                run_stmts(stmts, ns)
+            os_ = ns["optim_state"]
+            try:
+                if rej_stmt is not None:
+                    run_stmts([rej_stmt], ns)
+            except ValueError:
+                raised = True
+            real_m = float(os_["search_mesh_size"])
+            vals = [(float(lb[0, i]), float(ub[0, i]), float(xu[0, i]), float(os_["lb_search"][0, i]), float(os_["ub_search"][0, i]),
+                     float(os_["u"][0, i]), float(stub.u[i])) for i in range(D)]
+            ts = float(os_["tol_mesh"])
+        except Exception as ex:                      # noqa: BLE001
+            if acc is not None:
+                acc.differ("_init_optim_state_", f"the located statements do not run on the stub: {ex!r}")
+            continue
+        rp = dict(kind="init_region", lb=lb.tolist(), ub=ub.tolist(), x_units=xu.tolist(), options=dict(init_mesh_size_integer=k0, search_grid_multiplier=sgm,
+                                                                                                      search_grid_number=sgn, tol_mesh=tol))
+        nv += report(ctx, mon_mesh(pmm, k0, os_["mesh_size"]), rp)
+        nv += report(ctx, mon_mesh(pmm, ks, real_m), rp)
+        nv += report(ctx, mon_snap(pmm, tol, ts, ctx.coverage), rp)
+        if real_m == m:
+            for i, (l, u, x, a, b, u0, su) in enumerate(vals):
+                nv += report(ctx, mon_search_box(l, u, m, a, b), dict(rp, coordinate=i))
+                if D == 1 or not raised:
+                    nv += report(ctx, mon_start(x, l, u, m, u0, raised if D == 1 else False), dict(rp, coordinate=i))
+                if su != u0:
+                    nv += report(ctx, ("grid:start:self-u-differs", f"self.u {su!r} != optim_state['u'] {u0!r}"), dict(rp, coordinate=i))
+        if acc is None:
+            continue
         Zargs = dict(init_mesh_size_integer=k0, search_grid_multiplier=sgm, search_grid_number=sgn)
         acc.exact("_init_optim_state_", "src_init_mesh_size_integer", Zargs, stub.mesh_size_integer)
         acc.exact("_init_optim_state_", "src_init_search_size_integer", Zargs, os_["search_size_integer"])
@@ -526,12 +608,8 @@ def comp_init_region(ctx, acc, n):
         acc.exact("_init_optim_state_", "src_init_search_mesh_size", dict(poll_mesh_multiplier=pmm, search_size_integer=int(os_["search_size_integer"])), os_["search_mesh_size"])
         if not (stub.mesh_size == os_["mesh_size"] and stub.search_mesh_size == os_["search_mesh_size"] and os_["search_mesh_size"] == m):
             acc.differ("_init_optim_state_", f"mesh attributes and optim_state entries differ: {stub.mesh_size}, {os_['mesh_size']}, {stub.search_mesh_size}, {os_['search_mesh_size']}, {m}")
-        nv += report(ctx, mon_mesh(pmm, k0, os_["mesh_size"]), dict(kind="init", k=k0))
         any_rej = False
-        for i in range(D):
-            l, u, x = float(lb[0, i]), float(ub[0, i]), float(xu[0, i])
-            a, b, u0, su = float(os_["lb_search"][0, i]), float(os_["ub_search"][0, i]), float(os_["u"][0, i]), float(stub.u[i])
-            nv += report(ctx, mon_search_box(l, u, m, a, b), dict(kind="init_search_box", lb=l, ub=u, mesh=m))
+        for i, (l, u, x, a, b, u0, su) in enumerate(vals):
             if math.isfinite(l):
                 acc.exact("_init_optim_state_", "src_init_lb_search", dict(lb=l, search_mesh_size=m), a)
             if math.isfinite(u):
@@ -547,27 +625,23 @@ def comp_init_region(ctx, acc, n):
         acc.count("_init_optim_state_")
         if any_rej != raised:
             acc.differ("_init_optim_state_", f"re-check: model says rejected={any_rej}, the real statement raised={raised} (lb {lb.tolist()}, ub {ub.tolist()}, x {xu.tolist()}, mesh {m})")
-        if D == 1 or not raised:
-            for i in range(D):
-                l, u, x = float(lb[0, i]), float(ub[0, i]), float(xu[0, i])
-                nv += report(ctx, mon_start(x, l, u, m, float(os_["u"][0, i]), raised if D == 1 else False),
-                             dict(kind="init_start", x=x, lb=l, ub=u, mesh=m))
         # the snapping
-        ts = float(os_["tol_mesh"])
         acc.real_number("_init_optim_state_/tol_mesh", "src_init_tol_mesh", dict(poll_mesh_multiplier=pmm, tol_mesh=tol), ts, flags=("no-dec",))
         c = exact_snap_exponent(pmm, tol)
         dv = acc.evd.out(m_.init_tol, dict(poll_mesh_multiplier=Decimal(pmm), tol_mesh=Decimal(tol)))
         if abs(dv - Decimal(2) ** c) > Decimal(10) ** -30 * Decimal(2) ** c:
             acc.differ("_init_optim_state_/tol_mesh", f"60-digit value of the tree for tol_mesh {tol!r} is {float(dv)!r}, the exact least power is 2**{c}")
-        nv += report(ctx, mon_snap(pmm, tol, ts, ctx.coverage), dict(kind="init_tol", tol_mesh=tol, multiplier=pmm))
     return nv
 
 
-def comp_loop_region(ctx, acc, n):
+def comp_loop_region(ctx, acc, n, loose=None):
     bb, gf = real_mods()
     rng = ctx.rng
-    m_ = acc.m
-    stmts = def_stmts(m_.loop)
+    if acc is not None:
+        m_ = acc.m
+        stmts, stop_stmt = def_stmts(m_.loop), m_.loop_stop_stmt
+    else:
+        stmts, stop_stmt = loose[2], loose[3]
     nv = 0
     for _ in range(n):
         k = rng.choice([0, 0, -1, -2, -3, -5, -8, -13, -20, -30, 1, 2])
@@ -587,15 +661,37 @@ def comp_loop_region(ctx, acc, n):
         boxes = [gen_box(rng, m) for _ in range(D)]
         lb = np.array([[b[0] for b in boxes]])
         ub = np.array([[b[1] for b in boxes]])
-        stub = Stub(options=dict(poll_mesh_multiplier=pmm, search_size_locked=locked, search_grid_multiplier=sgm, search_grid_number=sgn,
-                                 tol_improvement=ti, forcing_exponent=fe, sloppy_improvement=sloppy, tol_fun=tf),
+        stub = Stub(options=Options(poll_mesh_multiplier=pmm, search_size_locked=locked, search_grid_multiplier=sgm, search_grid_number=sgn,
+                                    tol_improvement=ti, forcing_exponent=fe, sloppy_improvement=sloppy, tol_fun=tf),
                     mesh_size_integer=k, optim_state=dict(search_size_integer=ks_in, lb=lb.copy(), ub=ub.copy(), tol_mesh=tstate))
         stub._update_search_bounds_ = types.MethodType(bb.BADS._update_search_bounds_, stub)
         ns = dict(np=np, self=stub)
-        with np.errstate(all="ignore"):
-            run_stmts(stmts, ns)
-            stop = bool(eval_expr(m_.loop_stop_stmt.test, ns))
-        os_ = stub.optim_state
+        try:
+            with np.errstate(all="ignore"):
+                run_stmts(stmts, ns)
+                stop = bool(eval_expr(stop_stmt.test, ns)) if stop_stmt is not None else None
+            os_ = stub.optim_state
+            mesh, smesh, si = float(os_["mesh_size"]), float(os_["search_mesh_size"]), float(stub.sufficient_improvement)
+            vals = [(float(lb[0, i]), float(ub[0, i]), float(os_["lb_search"][0, i]), float(os_["ub_search"][0, i])) for i in range(D)]
+        except Exception as ex:                      # noqa: BLE001
+            if acc is not None:
+                acc.differ("optimize/loop", f"the located statements do not run on the stub: {ex!r}")
+            continue
+        rp = dict(kind="loop_region", lb=lb.tolist(), ub=ub.tolist(), mesh_size_integer=k, search_size_integer=ks_in,
+                  options=dict(search_size_locked=locked, search_grid_multiplier=sgm, search_grid_number=sgn, tol_improvement=ti, forcing_exponent=fe,
+                               sloppy_improvement=sloppy, tol_fun=tf), tol_mesh_state=tstate)
+        nv += report(ctx, mon_mesh(pmm, k, mesh), rp)
+        nv += report(ctx, mon_mesh(pmm, ks, smesh), rp)
+        if smesh == m:
+            for i, (l, u, a, b) in enumerate(vals):
+                nv += report(ctx, mon_search_box(l, u, m, a, b), dict(rp, coordinate=i))
+        nv += report(ctx, mon_si(sloppy, ti, mesh, fe, tf, si), rp)
+        if stop is not None and stop != (F(mesh) < F(tstate)):
+            nv += report(ctx, ("grid:tol-mesh:stop-test", f"mesh {mesh!r} vs tolerance {tstate!r}: the loop test gives {stop}"), rp)
+        if (ks_in <= k or locked) and k <= 0 and sgm >= 1 and not (smesh <= mesh):
+            nv += report(ctx, ("grid:mesh:search-mesh-exceeds-poll-mesh", f"search mesh {smesh!r} > poll mesh {mesh!r} (k={k}, ks_in={ks_in}, locked={locked}, sgm={sgm}, sgn={sgn})"), rp)
+        if acc is None:
+            continue
         f = "optimize/loop"
         acc.exact(f, "src_loop_mesh_size", dict(poll_mesh_multiplier=pmm, mesh_size_integer=k), os_["mesh_size"])
         Z = dict(search_size_locked=locked, search_size_integer_in=ks_in, mesh_size_integer=k, search_grid_multiplier=sgm, search_grid_number=sgn)
@@ -603,29 +699,15 @@ def comp_loop_region(ctx, acc, n):
         acc.exact(f, "src_loop_search_mesh_size", dict(poll_mesh_multiplier=pmm, search_size_integer=int(os_["search_size_integer"])), stub.search_mesh_size)
         if not (stub.mesh_size == os_["mesh_size"] and stub.search_mesh_size == os_["search_mesh_size"] == m):
             acc.differ(f, f"mesh attributes and optim_state entries differ: {stub.mesh_size}, {os_['mesh_size']}, {stub.search_mesh_size}, {os_['search_mesh_size']}, {m}")
-        nv += report(ctx, mon_mesh(pmm, k, os_["mesh_size"]), dict(kind="loop", k=k))
-        for i in range(D):
-            l, u = float(lb[0, i]), float(ub[0, i])
-            a, b = float(os_["lb_search"][0, i]), float(os_["ub_search"][0, i])
-            nv += report(ctx, mon_search_box(l, u, m, a, b), dict(kind="loop_search_box", lb=l, ub=u, mesh=m))
+        for i, (l, u, a, b) in enumerate(vals):
             if math.isfinite(l):
                 acc.exact(f, "src_loop_lb_search", dict(os_lb=l, search_mesh_size=m), a)
             if math.isfinite(u):
                 acc.exact(f, "src_loop_ub_search", dict(os_ub=u, search_mesh_size=m), b)
-        si = float(stub.sufficient_improvement)
-        R = dict(sloppy_improvement=sloppy, tol_improvement=ti, mesh_size=float(os_["mesh_size"]), forcing_exponent=fe, tol_fun=tf)
+        R = dict(sloppy_improvement=sloppy, tol_improvement=ti, mesh_size=mesh, forcing_exponent=fe, tol_fun=tf)
         acc.real_number(f + "/sufficient_improvement", "src_loop_sufficient_improvement", R, float(os_["search_sufficient_improvement"]))
         acc.real_number(f + "/sufficient_improvement", "src_loop_self_sufficient_improvement", R, si)
-        nv += report(ctx, mon_si(sloppy, ti, os_["mesh_size"], fe, tf, si), dict(kind="loop_si", **{k_: (v if not isinstance(v, np.generic) else v.item()) for k_, v in R.items()}))
-        acc.exact(f, "src_loop_tolmesh_stop", dict(mesh_size=float(os_["mesh_size"]), tol_mesh_state=tstate), stop)
-        if stop != (F(os_["mesh_size"]) < F(tstate)):
-            ctx.violate("grid:tol-mesh:stop-test", f"mesh {os_['mesh_size']!r} vs tolerance {tstate!r}: the loop test gives {stop}", dict(kind="loop_stop", k=k, tol=tstate))
-            nv += 1
-        if ks_in <= k or locked:
-            if k <= 0 and not (os_["search_mesh_size"] <= os_["mesh_size"]):
-                ctx.violate("grid:mesh:search-mesh-exceeds-poll-mesh", f"search mesh {os_['search_mesh_size']!r} > poll mesh {os_['mesh_size']!r} (k={k}, ks_in={ks_in}, locked={locked}, sgm={sgm}, sgn={sgn})",
-                            dict(kind="loop_mesh", k=k, ks_in=ks_in, locked=locked, sgm=sgm, sgn=sgn))
-                nv += 1
+        acc.exact(f, "src_loop_tolmesh_stop", dict(mesh_size=mesh, tol_mesh_state=tstate), stop)
     return nv
 
 
@@ -677,9 +759,10 @@ def comp_improvement(ctx, acc, n):
         z2 = float(np.asarray(zz).reshape(-1)[0])
         nv += report(ctx, mon_impr(fb, fn, sb, sn, q, z2), dict(kind="impr", f_base=fb, f_new=fn, s_base=sb, s_new=sn, q=q))
         if acc is not None:
-            big = max(abs(fb), abs(fn), sb, sn) > 1e100 or (0 < abs(fb - fn) < 1e-9 * max(sb, sn, 1.0))
+            big = max(abs(fb), abs(fn), sb, sn) > 1e100          # s**2 may overflow in binary64
+            # binary64 errors (cancellation in sigma*x0 + mu, underflow of s**2) are relative to the operands, not to the result
             acc.real_number("_eval_improvement_", "src_impr_sd", dict(f_base=fb, f_new=fn, s_base=sb, s_new=sn, q=q), z2,
-                            rel=1e-9, flags=("no-dec",) if big else ())
+                            rel=1e-9, flags=("no-dec",) if big else (), atol=1e-9 * max(abs(fb), abs(fn), sb, sn) + 1e-290)
     return nv
 
 
@@ -708,14 +791,19 @@ def comp_cc_region(ctx, acc, n):
 
 
 def gen_problem(rng):
+    """a valid problem.  Every third one stresses the nudge of the gridised start: coarse search mesh (small search_grid_number),
+    hard bounds off the grid, x0 on a hard bound (the constructor moves it inside by a margin smaller than half a coarse step)"""
     D = rng.randint(1, 3)
+    stress = rng.random() < 0.35
     lb, ub, plb, pub, x0 = [], [], [], [], []
     for _ in range(D):
         kind = rng.random()
         c = rng.choice([0.0, 0.3, -7.0, 100.0, round(rng.uniform(-50, 50), 2)])
         w = rng.choice([1.0, 0.1, 4.0, 37.5, round(rng.uniform(0.01, 100), 3)])
         pl, pu = c - w, c + w
-        if kind < 0.25:
+        if stress:
+            l, u = pl - rng.choice([0.3, 0.05, 0.77, 1.1]) * w, pu + rng.choice([0.3, 0.05, 0.77, 1.1]) * w
+        elif kind < 0.25:
             l, u = pl, pu                                       # tight
         elif kind < 0.4:
             l, u = -INF, INF
@@ -724,12 +812,17 @@ def gen_problem(rng):
         else:
             l, u = pl - rng.choice([1e-3, 0.3, 2.0, 10.0]) * w, pu + rng.choice([1e-3, 0.3, 2.0, 10.0]) * w
         t = rng.random()
-        x = (l if math.isfinite(l) else pl) if t < 0.2 else (u if math.isfinite(u) else pu) if t < 0.4 else pl + (pu - pl) * rng.random()
+        if stress:
+            x = l if t < 0.45 else u if t < 0.9 else pl + (pu - pl) * rng.random()
+        else:
+            x = (l if math.isfinite(l) else pl) if t < 0.2 else (u if math.isfinite(u) else pu) if t < 0.4 else pl + (pu - pl) * rng.random()
         lb.append(l); ub.append(u); plb.append(pl); pub.append(pu); x0.append(x)
     opts = dict(display="off")
     if rng.random() < 0.7:
         opts["tol_mesh"] = rng.choice([1e-6, 1e-3, 0.01, 2.0 ** -20, 2.0 ** -6, 0.25, 3e-7, 10 ** rng.uniform(-9, -1)])
-    if rng.random() < 0.3:
+    if stress:
+        opts["search_grid_number"] = rng.choice([0, 1, 2, 3, 4])
+    elif rng.random() < 0.3:
         opts["search_grid_number"] = rng.choice([4, 10, 20])
     if rng.random() < 0.2:
         opts["init_mesh_size_integer"] = rng.choice([-1, -3])
@@ -757,8 +850,7 @@ def real_objects(ctx, acc, n):
         except Exception as ex:                      # noqa: BLE001  (rejected problems are C08's business)
             ctx.coverage["grid_real_objects_rejected"] = ctx.coverage.get("grid_real_objects_rejected", 0) + 1
             if "not within the hard bounds" in str(ex) or "Initpoint" in str(ex):
-                ctx.violate("grid:start:valid-start-rejected", f"BADS(...) rejected a valid starting point after gridisation: {ex}", dict(kind="object", problem=pr))
-                nv += 1
+                nv += report(ctx, ("grid:start:valid-start-rejected", f"BADS(...) rejected a valid starting point after gridisation: {ex}"), dict(kind="object", problem=pr))
             continue
         finally:
             logging.disable(logging.NOTSET)
@@ -775,8 +867,7 @@ def real_objects(ctx, acc, n):
         nv += report(ctx, mon_mesh(pmm, ks, m), dict(kind="object", problem=pr))
         nv += report(ctx, mon_snap(pmm, float(o["tol_mesh"]), float(os_["tol_mesh"]), ctx.coverage), dict(kind="object", problem=pr))
         if not (m <= float(os_["mesh_size"])):
-            ctx.violate("grid:mesh:search-mesh-exceeds-poll-mesh", f"search mesh {m!r} > poll mesh {os_['mesh_size']!r} after construction", dict(kind="object", problem=pr))
-            nv += 1
+            nv += report(ctx, ("grid:mesh:search-mesh-exceeds-poll-mesh", f"search mesh {m!r} > poll mesh {os_['mesh_size']!r} after construction"), dict(kind="object", problem=pr))
         for i in range(b.D):
             l, u, x = float(lb[i]), float(ub[i]), float(xu[i])
             nv += report(ctx, mon_search_box(l, u, m, float(lbs[i]), float(ubs[i])), dict(kind="object", problem=pr, coordinate=i))
@@ -862,8 +953,7 @@ def run_level(ctx, acc, traces, what=("box", "mesh", "si", "impr")):
                             if math.isfinite(u):
                                 acc.exact("recorded runs/search box", nm % "ub", ({"ub": u} if phase == "init" else {"os_ub": u}) | {"search_mesh_size": m}, b, coq=False)
                 elif flb != lb or fub != ub:
-                    ctx.violate("grid:poll-box:not-the-hard-box", f"poll candidates filtered against {flb}, {fub}, not the hard box {lb}, {ub}", rp)
-                    nv += 1
+                    nv += report(ctx, ("grid:poll-box:not-the-hard-box", f"poll candidates filtered against {flb}, {fub}, not the hard box {lb}, {ub}"), rp)
             elif kind == "impr" and "impr" in what:
                 _, phase, fb, fn, sb, sn, q, z = e
                 if fb is None or fn is None or z is None or not all(math.isfinite(v) for v in (fb, fn, z)):
@@ -876,8 +966,7 @@ def run_level(ctx, acc, traces, what=("box", "mesh", "si", "impr")):
         if "box" in what and u0 is not None:
             for i, (l, u, x) in enumerate(zip(lb, ub, u0)):
                 if not (l <= x <= u):
-                    ctx.violate("grid:start:outside-box", f"constructed u0 {x!r} outside [{l!r}, {u!r}]", dict(rp, coordinate=i))
-                    nv += 1
+                    nv += report(ctx, ("grid:start:outside-box", f"constructed u0 {x!r} outside [{l!r}, {u!r}]"), dict(rp, coordinate=i))
     ctx.coverage["grid_run_events_checked"] = ctx.coverage.get("grid_run_events_checked", 0) + nev
     return nv
 
@@ -913,11 +1002,18 @@ def tie_grid(ctx, broken, traces=None, scale=1.0):
         nv += comp_search_box(ctx, acc, n(250))
     if "improvement" in parts:
         nv += comp_improvement(ctx, acc, n(300))
-    if acc is not None:
+    loose = None
+    if acc is None:
+        try:
+            loose = loose_regions()
+        except Exception as ex:                      # noqa: BLE001
+            ctx.notes.append("grid: the statements could not even be located loosely: %r" % (ex,))
+    if acc is not None or loose is not None:
         if "init" in parts:
-            nv += comp_init_region(ctx, acc, n(250))
+            nv += comp_init_region(ctx, acc, n(250), loose)
         if "loop" in parts:
-            nv += comp_loop_region(ctx, acc, n(250))
+            nv += comp_loop_region(ctx, acc, n(250), loose)
+    if acc is not None:
         if "poll" in parts:
             nv += comp_poll_region(ctx, acc, n(150))
         if "cc" in parts:
